@@ -174,6 +174,16 @@ def dag_ops(rec, rc, name, fn, args, dead=None):
     run('to_builder.end_cell', lambda: cell.to_builder().end_cell().hash)
     run('hash/eq', lambda: (cell.hash, cell == cell.copy(), hash(cell), cell.get_depth(0), cell.get_hash(3), cell.calculate_representation_hash()))
     run('store_ref.end_cell', lambda: Builder().store_ref(cell).store_ref(cell).end_cell().hash)
+    # the same DAG held as TWO object graphs (built twice / parsed twice): equal cells that are not identical objects -
+    # comparing them, using both as keys, and serialising a cell that references both must not walk them once per path
+    cell2 = run('construct-again', lambda: to_lib(rc, {}))
+    if cell2 is not None:
+        run('eq:two-graphs', lambda: (cell == cell2, cell2 == cell, cell != cell2))
+        run('keys:two-graphs', lambda: ({cell: 1}.get(cell2), len({cell, cell2}), cell2 in [cell]))
+        run('to_boc:two-graphs', lambda: len(Builder().store_ref(cell).store_ref(cell2).end_cell().to_boc()))
+        run('order:two-graphs', lambda: len(Builder().store_ref(cell2).store_ref(cell).end_cell().order()))
+    if bocs:
+        run('eq:parsed-twice', lambda: Cell.one_from_boc(bocs[0]) == Cell.one_from_boc(bocs[0]))
     run('slice-entry', lambda: Slice.one_from_boc(bocs[0]).to_cell().hash if bocs else None)
 
     def walk():
